@@ -351,14 +351,92 @@ func listing(t *trie.Trie, start []byte) ([]pair, error) {
 	return out, it.Err
 }
 
+type viol struct {
+	key, what string
+	h         []op
+	upto      int
+}
+
 type runner struct {
 	res   *hx.Result
 	rng   *hx.Rng
 	flags map[string]bool // features exercised by the current history
+	buf   []viol          // violations of the current history (flushed by doOne, shrunk first)
+	seen  map[string]int  // violations reported so far per key
 }
 
 func (rn *runner) violate(key, what string, h []op, upto int) {
-	rn.res.Violate(key, what, map[string]interface{}{"history": histString(h[:upto+1]), "step": upto})
+	if upto >= len(h) {
+		upto = len(h) - 1
+	}
+	rn.buf = append(rn.buf, viol{key, what, append([]op{}, h[:upto+1]...), upto})
+}
+
+// fires: does history h (run on a fresh trie, final checks included) violate under key?
+func (rn *runner) fires(h []op, key string) (bool, viol) {
+	sub := &runner{res: rn.res, rng: hx.NewRng(7), flags: map[string]bool{}, seen: rn.seen}
+	var uni [][]byte
+	for _, o := range h {
+		if o.K != nil {
+			uni = append(uni, o.K)
+		}
+	}
+	sub.run(h, uni)
+	for _, v := range sub.buf {
+		if v.key == key {
+			return true, v
+		}
+	}
+	return false, viol{}
+}
+
+// shrink: greedy removal of operations, then of trailing key/value bytes, while the same key still fires
+func (rn *runner) shrink(v viol) viol {
+	h := append([]op{}, v.h...)
+	if len(h) > 0 && h[len(h)-1].Kind == "final" {
+		h = h[:len(h)-1]
+	}
+	ok, best := rn.fires(h, v.key)
+	if !ok {
+		return v
+	}
+	for changed := true; changed; {
+		changed = false
+		for i := len(h) - 1; i >= 0; i-- {
+			c := append(append([]op{}, h[:i]...), h[i+1:]...)
+			if ok, b := rn.fires(c, v.key); ok {
+				h, best, changed = c, b, true
+			}
+		}
+	}
+	// shorten values
+	for i := range h {
+		for len(h[i].V) > 1 {
+			c := append([]op{}, h...)
+			c[i].V = h[i].V[:len(h[i].V)/2]
+			if ok, b := rn.fires(c, v.key); ok {
+				h, best = c, b
+			} else {
+				break
+			}
+		}
+	}
+	return best
+}
+
+// flush the violations of the current history into the result; the first few per key are shrunk
+func (rn *runner) flush() {
+	done := map[string]bool{}
+	for _, v := range rn.buf {
+		if !done[v.key] && rn.seen[v.key] < 2 {
+			done[v.key] = true
+			v = rn.shrink(v)
+			v.what += " [history shrunk]"
+		}
+		rn.seen[v.key]++
+		rn.res.Violate(v.key, v.what, map[string]interface{}{"history": histString(v.h), "step": v.upto})
+	}
+	rn.buf = nil
 }
 
 // checkRoot: direct property "root depends only on the content" + reference root
@@ -630,7 +708,7 @@ func main() {
 		"plus every history up to a fixed length over a 4-key universe {12, 1234, 1235, 22} x values {1 byte, 33 bytes} x delete. " +
 		"non-trivial = distinct history during which the trie held at least two keys at once (so a branch node existed)")
 	cs := hx.NewCases(a.Out, "From V.C02 Require Import Model Harness.", "list hop", "check", 40)
-	rn := &runner{res: res, rng: rng.Fork()}
+	rn := &runner{res: res, rng: rng.Fork(), seen: map[string]int{}}
 
 	doOne := func(h []op, uni [][]byte, toModel bool, sample bool) {
 		rn.flags = map[string]bool{}
@@ -647,6 +725,7 @@ func main() {
 			}
 		}
 		hops, jsn, s := rn.run(h, uni)
+		rn.flush()
 		id := histString(h)
 		res.Count(class(s, rn.flags), id, max2)
 		if hops == nil {
@@ -741,6 +820,54 @@ func main() {
 		}
 		doOne(h, uni, true, i%53 == 0)
 	}
+
+	// ---- direct search only (no model): many more generated histories ...
+	extra := 20 * a.N
+	for i := 0; i < extra; i++ {
+		r := rng.Fork()
+		h, _ := genHistory(r)
+		uniSet := map[string]bool{}
+		var uni [][]byte
+		for _, o := range h {
+			if o.K != nil && !uniSet[string(o.K)] && (o.Kind == "upd" || o.Kind == "del") {
+				uniSet[string(o.K)] = true
+				uni = append(uni, o.K)
+			}
+		}
+		doOne(h, uni, false, false)
+	}
+	// ... and every interleaving of writes with hash / commit / flush / reload up to a fixed length, with and
+	// without a cache limit of 1 generation (stale cached hashes, unloaded nodes, reload of embedded nodes)
+	bKeys := [][]byte{{0x12}, {0x12, 0x34}, {0x12, 0x35}}
+	var bOps []op
+	for _, k := range bKeys {
+		bOps = append(bOps, op{Kind: "upd", K: k, V: []byte{0x61}}, op{Kind: "upd", K: k, V: bytes.Repeat([]byte{0x62}, 33)}, op{Kind: "del", K: k})
+	}
+	bOps = append(bOps, op{Kind: "hash"}, op{Kind: "commit"}, op{Kind: "flush"}, op{Kind: "reopen-disk"}, op{Kind: "reopen-mem"})
+	bLen := 4
+	if a.Tier == "thorough" {
+		bLen = 5
+	}
+	nB := 0
+	var recB func(pre []op, d int)
+	recB = func(pre []op, d int) {
+		if len(pre) > 1 {
+			doOne(append([]op{}, pre...), bKeys, false, false)
+			doOne(append([]op{{Kind: "limit", L: 1}}, pre...), bKeys, false, false)
+			nB += 2
+		}
+		if d == 0 {
+			return
+		}
+		for _, o := range bOps {
+			if len(pre) > 0 && o.K == nil && pre[len(pre)-1].K == nil && o.Kind == pre[len(pre)-1].Kind && o.Kind == "hash" {
+				continue // hash;hash adds nothing
+			}
+			recB(append(pre, o), d-1)
+		}
+	}
+	recB(nil, bLen)
+	res.Note(fmt.Sprintf("direct search without model: %d more generated histories; exhaustive: all %d histories of length <= %d over %d operations (3 keys x {1-byte, 33-byte value, delete}, hash, commit, flush, reopen-disk, reopen-mem), each with cache limit 0 and 1", extra, nB, bLen, len(bOps)))
 
 	cs.Close()
 	res.ModelCases = cs.Total()
